@@ -594,6 +594,7 @@ func ruleK3(c *Ctx) {
 					continue
 				}
 				okFirst, why = true, ""
+				firstTest := false
 				// value: load through the slot pointer
 				ld, isLd := st.Val.(*ssa.UnOp)
 				if !isLd || len(sites) == 0 || !derivesFrom(ld.X, sites[0].p) {
@@ -622,6 +623,14 @@ func ruleK3(c *Ctx) {
 								if u, ok := o.(*ssa.UnOp); ok {
 									if f2, ok := u.X.(*ssa.FieldAddr); ok && strings.HasSuffix(fieldCell(f2), ".N") {
 										okc = true // value counter
+										// "the value just counted is the first": N == 1 on the edge taken
+										other := bo.Y
+										if o == bo.Y {
+											other = bo.X
+										}
+										if k, isC := constIntOf(other); isC && k == 1 && ((bo.Op == token.EQL && cd.idx == 0) || (bo.Op == token.NEQ && cd.idx == 1)) {
+											firstTest = true
+										}
 									}
 								}
 								if call, ok := o.(*ssa.Call); ok {
@@ -638,6 +647,9 @@ func ruleK3(c *Ctx) {
 							}
 						}
 					}
+				}
+				if okFirst && !firstTest {
+					okFirst, why = false, "the copy is not selected by the test `value counter == 1`"
 				}
 				// no scratch reset between the parse and the copy: no Reset call on the scratch address lies on a
 				// path from the parse call to the copy
